@@ -143,6 +143,36 @@ func oracleC15(r *Result) {
 		}
 	}
 	_ = concurrent
+	// same request, same registration ⇒ same outcome: the consumer endpoint persisted for an AuthnRequest is a function of that
+	// request and of the service-provider record it names, not of what other sessions did before
+	type sel struct {
+		sp, ver          int
+		bind, url, index string
+	}
+	first := map[sel]*Task{}
+	for _, t := range r.Tasks {
+		if t.Msg.Kind != "sso" || t.Abandoned || t.Reply == nil || t.Panic != "" || t.Sent == nil || !t.Sent.Conformant {
+			continue
+		}
+		ps := persisted(t)
+		rec := firstCall(t, "GetEntityByID")
+		if len(ps) != 1 || rec == nil || rec.SPCfg == nil {
+			continue
+		}
+		k := sel{rec.SPIdx, rec.SPVer, t.Msg.ProtoBind, t.Msg.ACSURL, t.Msg.ACSIndex}
+		if o, ok := first[k]; ok {
+			w.probe("same_request_outcome_compared")
+			a, b := persisted(o)[0].Snap, ps[0].Snap
+			if a.ACS != b.ACS || a.Binding != b.Binding {
+				r.violate("C15 outcome-depends-on-history", "C15:isolation:sso:same-request-different-consumer-endpoint",
+					"each reply is determined solely by its own request and the storage records it names",
+					fmt.Sprintf("two conformant requests of sp%d (registration v%d) with ProtocolBinding=%q ACS URL=%q index=%q: task %d persisted (%s, %s), task %d persisted (%s, %s)",
+						k.sp, k.ver, k.bind, k.url, k.index, o.ID, a.ACS, a.Binding, t.ID, b.ACS, b.Binding), t.ID)
+			}
+		} else {
+			first[k] = t
+		}
+	}
 	// ids
 	uses := allProducedIDs(r)
 	seen := map[string]idUse{}
@@ -254,7 +284,7 @@ func (w *World) snapshotShared() string {
 
 func (g G) planC15() *Plan {
 	o := &mixOpts{family: "concurrent-clients",
-		world: worldOpts{maxSPs: 4, maxUsers: 4, maxReplicas: 1, hardPct: 5, hardURLPct: 15, customAttrs: true, issuerVariety: true, endpointVariety: true, metaVariety: true,
+		world: worldOpts{maxSPs: 4, maxUsers: 4, maxReplicas: 1, hardPct: 5, hardURLPct: 15, customAttrs: true, issuerVariety: true, endpointVariety: true, metaVariety: true, acsSupportedVariety: true,
 			sloVariety: true, parkVariety: true},
 		wSSO: 16, wCallback: 18, wSLO: 8, wAttrQ: 10, wMeta: 8, wCert: 3, wReady: 1, wHealthz: 1,
 		wResume: 50, wFinish: 4, wComplete: 8, wPair: 12, wRotate: 1, wAdvance: 1,
